@@ -109,6 +109,14 @@ def conn_event(mesh, with_coords=True, scale=None):
         opt('e2t', lambda: rows_of_csc(mesh.e2t)[0], [])
     else:
         ev.update(edges=[], t2e=[], f2e=[], bedges=[], p2e=[], e2t=[])
+    def count(fn):
+        try:
+            return int(fn())
+        except Exception:
+            return -1
+    ev['counts'] = [count(lambda: mesh.nelements), count(lambda: mesh.nvertices), count(lambda: mesh.nfacets),
+                    count(lambda: mesh.nedges) if three else 0, count(lambda: mesh.nnodes),
+                    int(mesh.t.shape[0] == nv)]
     ev['errs'] = errs
     ev['ni'] = 1                     # 1: compared with the first event of the scenario (numbering independence)
     if with_coords:
